@@ -154,6 +154,15 @@ def run(prop, tier, seed, out):
         for r in results:
             for pr in r["problems"] or []:
                 out.violation("%s: %s" % (r["name"], pr["what"]), r)
+        # a ChannelSink with several calls in flight (shared by pipelines / concurrent Sends) and a slow consumer:
+        # every call keeps its own timeout (ChannelConc.tla, checked by C13)
+        cp = scr.path("chanconc.json")
+        p3, races3 = run_race(vh, ["chan-conc", "-out", cp], scr, "chanconc")
+        if p3.returncode != 0:
+            raise Broken("chan-conc failed: " + p3.stderr[-1000:])
+        for m in json.load(open(cp))["mismatches"] or []:
+            out.violation("channel sink shared by concurrent callers: %s: expected %s, observed %s" % (m["what"], json.dumps(m["expected"])[:120], json.dumps(m["observed"])[:120]), m)
+        races = races + races3
         f8_seen = False
         for blk in races:
             c = classify(blk)
